@@ -8,7 +8,7 @@ CONSTANTS
   FixRollback = FALSE
   H = 3
   CatSel = {1, 2, 3, 4, 5, 6, 7, 8, 9, 10, 11, 12, 13, 14, 15}
-  Wide = FALSE
+  WideCats = {}
 INVARIANT TypeOK
 INVARIANT NoClobber
 INVARIANT EsInv
